@@ -42,7 +42,7 @@ theorem trim_right_src_eq (cfg : Cfg) (string : Str) (chars : Option Str) :
 
 theorem norm_src_eq (cfg : Cfg) (string : Option Str) (chars : Option Str) :
     SrcStrings.norm cfg string chars = Strings.norm cfg string chars := by
-  cases string <;> simp [SrcStrings.norm, Strings.norm, PyStr.strip, Lemmas.PyPrelude.decide_eq_nil]
+  cases string <;> simp [SrcStrings.norm, Strings.norm, PyStr.strip]
 
 theorem is_empty_src_eq (cfg : Cfg) (string : Option Str) (trim_spaces : Bool) (chars : Option Str) :
     SrcStrings.is_empty cfg string trim_spaces chars = Strings.isEmpty cfg string trim_spaces chars := by
@@ -50,13 +50,21 @@ theorem is_empty_src_eq (cfg : Cfg) (string : Option Str) (trim_spaces : Bool) (
     simp [SrcStrings.is_empty, Strings.isEmpty, PyStr.strip, Lemmas.PyPrelude.decide_eq_nil]
 
 theorem replace_src_eq (string old new : Str) (count : Int) :
-    SrcStrings.replace string old new count = Strings.replace string old new count := by
-  simp [SrcStrings.replace, Strings.replace, PyStr.replace]
+    SrcStrings.replace string old new count
+      = if Py.ssizeOk count then .ok (Strings.replace string old new count) else .error .overflowError := by
+  simp only [SrcStrings.replace, Strings.replace, PyStr.replace]
 
 theorem replace_with_dict_src_eq (string : Str) (replacements : List (Atom × Atom)) (count : Int) :
     SrcStrings.replace_with_dict string strOf replacements count
-      = Strings.replaceDict string replacements count := by
-  simp [SrcStrings.replace_with_dict, Strings.replaceDict, PyStr.replace]
+      = if Py.ssizeOk count || replacements.isEmpty then .ok (Strings.replaceDict string replacements count)
+        else .error .overflowError := by
+  unfold SrcStrings.replace_with_dict Strings.replaceDict
+  by_cases h : Py.ssizeOk count = true
+  · simp only [h, Bool.true_or, if_true, PyStr.replace]
+    rw [Lemmas.PyPrelude.forLoop_next_eq_foldl]
+  · cases replacements with
+    | nil => simp [Py.forLoop]
+    | cons kv rest => simp [Py.forLoop, PyStr.replace, h]
 
 theorem join_src_eq (sequence : List Atom) (separator : Str) :
     SrcStrings.join sequence separator strOf = Strings.joinAtoms sequence separator := by
@@ -68,15 +76,21 @@ theorem join2_src_eq (separator : Str) (sequence : List Atom) :
 
 theorem split_src_eq (cfg : Cfg) (string : Str) (separator : Option Str) (max_splits : Int) :
     SrcStrings.split cfg string separator max_splits
-      = PyStr.liftErr (Strings.split cfg string separator max_splits) := by
+      = if Py.ssizeOk max_splits then PyStr.liftErr (Strings.split cfg string separator max_splits)
+        else .error .overflowError := by
   simp only [SrcStrings.split, Strings.split, PyStr.split]
-  rcases separator with _ | _ | ⟨c, r⟩ <;> rfl
+  cases Py.ssizeOk max_splits
+  · rfl
+  · rcases separator with _ | _ | ⟨c, r⟩ <;> rfl
 
 theorem right_split_src_eq (cfg : Cfg) (string : Str) (separator : Option Str) (max_splits : Int) :
     SrcStrings.right_split cfg string separator max_splits
-      = PyStr.liftErr (Strings.rightSplit cfg string separator max_splits) := by
+      = if Py.ssizeOk max_splits then PyStr.liftErr (Strings.rightSplit cfg string separator max_splits)
+        else .error .overflowError := by
   simp only [SrcStrings.right_split, Strings.rightSplit, PyStr.rsplit]
-  rcases separator with _ | _ | ⟨c, r⟩ <;> rfl
+  cases Py.ssizeOk max_splits
+  · rfl
+  · rcases separator with _ | _ | ⟨c, r⟩ <;> rfl
 
 theorem in_src_eq (left right : Str) : SrcStrings.in_ left right = Strings.isIn left right := by
   simp [SrcStrings.in_, Strings.isIn, PyStr.contains]
